@@ -74,7 +74,7 @@ def install():
     from quantity.term import Term
     from quantity import money
     ExchangeRate = money.ExchangeRate
-    exact = {"Decimal", "Fraction"}
+    exact = {"Decimal", "Fraction", "int"}
 
     # ------------------------------------------------------------------ C05
     orig_new = Quantity.__dict__["__new__"]
